@@ -63,3 +63,44 @@ package phase0
 //@   trusted
 //@   opt noalloc
 //@   ensures (err == nil) == idxatt_ok(spec, epc, state, *indexedAttestation)
+
+// compute_subnet_for_attestation (with the implementation's extra range check on the committee index)
+//@ func ComputeSubnetForAttestation(spec, committeesPerSlot, slot, committeeIndex) (subnet, err)
+//@   property C12 C19
+//@   opt noalloc
+//@   requires spec != nil && spec.SLOTS_PER_EPOCH != 0
+//@   ensures err == nil ==> subnet == (((committeesPerSlot * (slot % spec.SLOTS_PER_EPOCH)) % 18446744073709551616 + committeeIndex) % 18446744073709551616) % 64
+//@   ensures err == nil <==> committeeIndex < (committeesPerSlot * spec.SLOTS_PER_EPOCH) % 18446744073709551616
+
+// ---------------------------------------------------------------- aggregate-and-proof helpers (assumed here, used by gossip validation)
+//@ sort AttT = Attestation
+//@ sort AggProofT = AggregateAndProof
+//@ sort Sig96T = common.BLSSignature
+//@ ufun att_root(SpecP, AttT) RootT
+//@ ufun aggproof_root(SpecP, AggProofT) RootT
+//@ ufun aggsel_err(SpecP, EpcP, StateI, int, int, int, Sig96T) bool
+//@ ufun aggsel_ok(SpecP, EpcP, StateI, int, int, int, Sig96T) bool
+//@ ufun to_indexed_err(SpecP, AttT) bool
+
+//@ func (a *Attestation) HashTreeRoot(spec, hFn) r
+//@   trusted
+//@   opt noalloc
+//@   requires a != nil
+//@   ensures r == att_root(spec, *a)
+
+//@ func (a *AggregateAndProof) HashTreeRoot(spec, hFn) r
+//@   trusted
+//@   opt noalloc
+//@   requires a != nil
+//@   ensures r == aggproof_root(spec, *a)
+
+//@ func ValidateAggregateSelectionProof(spec, epc, state, slot, commIndex, aggregator, selectionProof) (valid, err)
+//@   trusted
+//@   opt noalloc
+//@   ensures (err != nil) == aggsel_err(spec, epc, state, slot, commIndex, aggregator, selectionProof)
+//@   ensures err == nil ==> valid == aggsel_ok(spec, epc, state, slot, commIndex, aggregator, selectionProof)
+
+//@ func (attestation *Attestation) ConvertToIndexed(spec, committee) (indexed, err)
+//@   trusted
+//@   requires attestation != nil
+//@   ensures err == nil ==> indexed != nil
